@@ -13,6 +13,7 @@ import XotModel.Lemmas.Html5Names
 import XotModel.Lemmas.Html5Stream
 import XotModel.Lemmas.Html5Ctx
 import XotModel.Lemmas.Html5Embedded
+import XotModel.Lemmas.Html5Stack2
 
 namespace XotModel.Props
 open XotModel XotModel.Gen
@@ -484,6 +485,36 @@ theorem C19_tokens (env : Env) (p : HtmlParams) (t : Tree) (start : Path) (out :
         simp only [List.length_cons, List.replicate_succ, List.zip_cons_cons, List.flatMap_cons]
         rw [ih]
         simp
+
+/-- End tags: in every successful serialisation, the end tag of an element in no namespace, in
+    `XHTML_NS`, MathML or SVG is `</local>` — the bare local name, like its start tag
+    (`C19_unprefixed`) — or nothing at all when the element is void (`C19_tags_end`).  This is a
+    property of the whole run: the default binding the element saw at its start tag is still in
+    the name stack at its end tag, whatever its descendants pushed and popped in between. -/
+theorem C19_unprefixed_end (env : Env) (p : HtmlParams) (t : Tree) (start : Path)
+    (l : List (Path × Output × OutputToken))
+    (hl : renderHtmlAll (htmlCtx env p) t (initStack t start) (genOutputs t start) = .ok l) :
+    ∀ k ∈ l, ∀ name, k.2.1 = .endTag name →
+      ((htmlCtx env p).h.isHtmlNamespace ((htmlCtx env p).env.nsOfName name) = true ∨
+        (htmlCtx env p).h.mustBeUnprefixed ((htmlCtx env p).env.nsOfName name) = true) →
+      (htmlCtx env p).env.nsOfName name ≠ Env.xmlNamespace →
+      k.2.2.text = [] ∨ k.2.2.text = ['<','/'] ++ (htmlCtx env p).env.localName name ++ ['>'] := by
+  intro k hk name hname hns hxml
+  obtain ⟨sf, hrun⟩ := renderHtmlAll_run _ t _ _ l hl
+  unfold genOutputs at hrun
+  cases hn : t.at? start with
+  | none =>
+    simp only [hn, runHtml, Option.some.injEq, Prod.mk.injEq] at hrun
+    obtain ⟨_, rfl⟩ := hrun; simp at hk
+  | some n =>
+    cases hs : namespacesInScope t start with
+    | none =>
+      simp only [hn, hs, runHtml, Option.some.injEq, Prod.mk.injEq] at hrun
+      obtain ⟨_, rfl⟩ := hrun; simp at hk
+    | some inScope =>
+      simp only [hn, hs] at hrun
+      have hne : initStack t start ≠ [] := by simp [initStack, FStack.new]
+      exact (run_node _ t inScope n true start _ sf l hne hrun).2 k hk name hname ⟨hns, hxml⟩
 
 /-! ### MathML / SVG under a default-namespace declaration: false as stated -/
 
